@@ -480,11 +480,10 @@ func (m *Model) Pull(s *MSub, max int, resp []RecvMsg, t0, t1 time.Time) *Violat
 						score = 1
 						if x.mayAlive(t0) && x.mayDue(t1) {
 							score = 2
-							if !x.Fuzzy {
-								score = 3
-								if x.mustAlive(t1) && x.mustDue(t0) {
-									score = 4 // definitely eligible beats "within a boundary zone"
-								}
+							if !x.Fuzzy && x.mustAlive(t1) && x.mustDue(t0) {
+								// definitely eligible (required); a delivery in the boundary
+								// zone of its lease or retention is as optional as a fuzzy one
+								score = 4
 							}
 						}
 					}
@@ -573,7 +572,7 @@ func (m *Model) Pull(s *MSub, max int, resp []RecvMsg, t0, t1 time.Time) *Violat
 		seen[e] = true
 		// retention first: a delivery past its retention is a C14 matter whatever its state
 		if !e.mayAlive(t0) && e.State != stGone {
-			return viol("C14", "delivered_after_retention", "%v delivered at %v, retention ended by %v", e, t0.Sub(epoch), e.RetHi.Sub(epoch))
+			return viol("C14", "delivered_after_retention", "%v delivered at %v, retention ended by %v%s", e, t0.Sub(epoch), e.RetHi.Sub(epoch), m.describe(e))
 		}
 		// state
 		if !e.Fuzzy && !(e.State == stAcked && e.Grace) {
@@ -607,7 +606,7 @@ func (m *Model) Pull(s *MSub, max int, resp []RecvMsg, t0, t1 time.Time) *Violat
 			}
 		}
 		if !e.mayAlive(t0) {
-			return viol("C14", "delivered_after_retention", "%v delivered at %v, retention ended by %v", e, t0.Sub(epoch), e.RetHi.Sub(epoch))
+			return viol("C14", "delivered_after_retention", "%v delivered at %v, retention ended by %v%s", e, t0.Sub(epoch), e.RetHi.Sub(epoch), m.describe(e))
 		}
 		if !e.mayDue(t1) {
 			p := "C04"
@@ -659,14 +658,34 @@ func (m *Model) Pull(s *MSub, max int, resp []RecvMsg, t0, t1 time.Time) *Violat
 	// C05 ordering oracle (independent of may/must)
 	if cfg.Ordered && !s.OrderedToggled {
 		for _, e := range delivered {
-			if e.Msg.Key == "" || e.Origin != nil || e.MaybeCopy {
+			if e.Msg.Key == "" {
 				continue
 			}
 			for _, p := range s.EDs {
-				if p == e {
-					break
+				if p == e || p.Msg.Key != e.Msg.Key || p.State == stGone {
+					continue
 				}
-				if p.Origin != nil || p.MaybeCopy || p.Msg.Key != e.Msg.Key || p.Msg.Seq >= e.Msg.Seq {
+				// "earlier": published earlier and, where a dead-letter forwarded copy is
+				// involved (enqueued when it is forwarded), not enqueued on this
+				// subscription later than the other
+				copyInvolved := e.Origin != nil || e.MaybeCopy || p.Origin != nil || p.MaybeCopy
+				earlier := p.Msg.Seq < e.Msg.Seq
+				if copyInvolved && p.CreLo.After(e.CreHi) {
+					// published earlier but enqueued here later (or the other way round): the
+					// text defines no order between the two
+					earlier = false
+				}
+				if !earlier || p.Msg == e.Msg {
+					continue
+				}
+				if copyInvolved && (!p.possiblySettled(t1) || seen[p]) {
+					// known finding: predecessor links are chosen by published_at, which is one
+					// and the same instant for every copy forwarded by one dead-lettering step,
+					// so the link of a copy (or of a message published after them) may point at
+					// any of them; "dead-lettering is not fully supported in that case" (code)
+					if v := m.knownOr(viol("C05", "overtaken_dead_letter_copy", "message %d (key %q) delivered on %s while message %d with the same key, published earlier and enqueued here no later, is outstanding (%v); at least one of the two is a dead-letter forwarded copy", e.Msg.Seq, e.Msg.Key, s.Name, p.Msg.Seq, p)); v != nil {
+						return v
+					}
 					continue
 				}
 				if !p.possiblySettled(t1) || seen[p] {
